@@ -420,6 +420,38 @@ func c14Case(rt *rapid.T, rec *vt.Rec) {
 		break
 	}
 	sc.quiesce()
+	// Handlers of cancelled calls go on in the background; they must all have finished before the connection is taken
+	// away, or their nested calls would wait for replies that can no longer come and look wedged. One quiescent
+	// snapshot is not proof under load (DESIGN.md §8.4), so while a handler is still inside the bubble: look again.
+	for retry := 0; retry < 300; retry++ {
+		handlers := 0
+		for _, g := range bubbleLeftovers() {
+			if strings.Contains(g, "(*Remote).handleRequest") {
+				handlers++
+			}
+		}
+		if handlers == 0 {
+			break
+		}
+		for i := 0; i < 50; i++ {
+			runtime.Gosched()
+		}
+		sc.quiesce()
+		for moved := true; moved; {
+			moved = false
+			if b := ab.pop(); b != nil {
+				cb.inbox <- b
+				moved = true
+			} else if b := ba.pop(); b != nil {
+				ca.inbox <- b
+				moved = true
+			}
+			if moved {
+				falseStalls++
+				sc.quiesce()
+			}
+		}
+	}
 	for _, c := range callers {
 		want := expectedEcho(c.token, c.depth)
 		if c.depth > 0 {
